@@ -24,7 +24,7 @@ pub fn registry(property: &str) -> Option<CheckSpec> {
         "C31" => Some(CheckSpec {
             property: "C31",
             level: "exploration",
-            parts: vec![Part::new(discount::DiscountSim, 20_000, 400_000)],
+            parts: vec![Part::new(discount::DiscountSim, 100_000, 2_000_000)],
             assumptions: vec![
                 "the maximum rank is fixed by initialize_gt (it cannot be changed afterwards), so each run explores one rank table size".into(),
                 "a referred-user factor above 100 % is outside the statement's domain (\"factors up to 100 %\"): the setters accept it and the computation then fails; this is counted by a probe, not reported".into(),
@@ -33,10 +33,12 @@ pub fn registry(property: &str) -> Option<CheckSpec> {
         "C30" => Some(CheckSpec {
             property: "C30",
             level: "exploration",
-            parts: vec![Part::new(gt::GtSim, 20_000, 400_000), Part::new(gtorder::GtOrderSim, 2_000, 40_000)],
+            parts: vec![Part::new(gt::GtSim, 15_000, 250_000), Part::new(gtorder::GtOrderSim, 2_000, 30_000)],
             assumptions: vec![
                 "exchange windows other than 86400 s are forged into the store account because gt_set_exchange_time_window is compiled out without the test-only feature".into(),
                 "a single mint crosses at most 3000 grow steps (the program loops once per step)".into(),
+                "the cluster clock never steps backwards (Solana clamps Clock.unix_timestamp to be non-decreasing); stalls, jumps and extreme jumps are injected".into(),
+                "order path (gtordersim): the USD amount minted for is the fee value recorded by the program (paid_fee_value - minted_fee_value); cost0 is bounded below so that one order crosses < ~2000 grow steps".into(),
             ],
         }),
         _ => None,
